@@ -1,4 +1,7 @@
 import Tumfl.Props.C11
 #print axioms Tumfl.Props.C11_roundtrip
 #print axioms Tumfl.Props.C11_precOK
+#print axioms Tumfl.Props.C11_emit_is_par
+#print axioms Tumfl.Props.C11_emit_roundtrip
+#print axioms Tumfl.Props.C11_minified
 #print axioms Tumfl.Inst.brackets_sound_all
